@@ -203,12 +203,12 @@ Proof.
   pose proof (NoDup_incl_length R6 Hi) as H. now rewrite seq_length in H.
 Qed.
 
-Lemma loop_sim n edges source : evalid n edges -> (Z.of_nat n <= 1000000)%Z ->
+Lemma loop_sim n edges source mi : evalid n edges -> (Z.of_nat n <= mi)%Z ->
   forall fp fr ps rs,
     rel n ps rs -> incl (Bfs.visited ps) (source :: map snd edges) ->
     2 + length edges <= fp + length (RsSearch.order rs) ->
     2 + n <= fr + length (RsSearch.order rs) ->
-    exists l, Bfs.loop fp Bfs.Queue (Bfs.succ_of (PyEdges.adj_of n edges)) None 1000000%Z
+    exists l, Bfs.loop fp Bfs.Queue (Bfs.succ_of (PyEdges.adj_of n edges)) None mi
                        (Z.of_nat (length (RsSearch.order rs))) ps = Some (Bfs.Visited l (Z.of_nat (length l))) /\
               RsSearch.bfs_loop fr (RsSearch.build_adjacency n edges) source None rs = Some (RsSearch.K [] false (rev l)).
 Proof.
@@ -226,7 +226,7 @@ Proof.
       pose proof (r_list _ _ _ HR) as HL. rewrite EF in HL.
       assert (Hlen : length (Bfs.visited ps) = S (length rest) + length (RsSearch.order rs)).
       { rewrite HL, app_length, rev_length. reflexivity. }
-      assert (Hit : (Z.of_nat (length (RsSearch.order rs)) <? 1000000)%Z = true) by (apply Z.ltb_lt; lia).
+      assert (Hit : (Z.of_nat (length (RsSearch.order rs)) <? mi)%Z = true) by (apply Z.ltb_lt; lia).
       rewrite Hit.
       assert (Hcur : cur < n).
       { apply (r_lt _ _ _ HR). rewrite HL. apply in_or_app. left. apply in_rev. rewrite rev_involutive. left. reflexivity. }
@@ -257,11 +257,12 @@ Qed.
 
 (* ---------------------------------------------------------------- the theorem (target = None) *)
 Theorem bfs_reach_equiv : forall n edges source,
-  ES.valid_input n edges source None = true -> (Z.of_nat n <= 1000000)%Z ->
+  ES.valid_input n edges source None = true ->
   RsSearch.bfs_edges n edges source None = PyEdges.bfs_edges n edges source None /\
   exists l, PyEdges.bfs_edges n edges source None = Some (ES.Reach l).
 Proof.
-  intros n edges source HV Hcap.
+  intros n edges source HV.
+  assert (Hcap : (Z.of_nat n <= PyEdges.max_iter_of n edges)%Z) by (unfold PyEdges.max_iter_of; lia).
   unfold ES.valid_input in HV. rewrite andb_true_r in HV. apply andb_true_iff in HV. destruct HV as [Hs He].
   apply Nat.ltb_lt in Hs.
   assert (HE : evalid n edges).
@@ -278,7 +279,7 @@ Proof.
         assert (E2 : Nat.eqb v source = false) by (apply Nat.eqb_neq; congruence). now rewrite E2.
     - intros v [<-|[]]. exact Hs.
     - repeat constructor. intros []. }
-  destruct (loop_sim n edges source HE Hcap (Bfs.fuel_of (PyEdges.adj_of n edges)) (S (S n)) (Bfs.init source) rs0 HR0)
+  destruct (loop_sim n edges source (PyEdges.max_iter_of n edges) HE Hcap (Bfs.fuel_of (PyEdges.adj_of n edges)) (S (S n)) (Bfs.init source) rs0 HR0)
     as [l [HP HRs]].
   - simpl. intros v [<-|[]]. left. reflexivity.
   - simpl. unfold Bfs.fuel_of, PyEdges.adj_of.
